@@ -183,9 +183,20 @@ def gen_e2e(res, seed, n_runs):
         spec, nts, judge, texts = make_spec(rng)
         full = spec + "".join(f"where {t}\n" for t in texts)
         try:
-            fan = Fandango(full)
+            if rng.random() < 0.3:
+                # the same constraints given as extra (command-line style) constraints instead of `where` lines
+                k_ = rng.randint(0, len(texts) - 1)
+                fan = Fandango(spec + "".join(f"where {t}\n" for t in texts[:k_]), constraints=list(texts[k_:]))
+                res.bump("e2e_extra_constraints")
+            else:
+                fan = Fandango(full)
             ex = L.ConstraintExport()
             irs = [ex.export(c) for c in fan.constraints if not isinstance(c, RepetitionBoundsConstraint)]
+            if len(irs) != len(texts):
+                res.bump("e2e_constraint_count_mismatch")
+                terms.append("(Leaf (LBit true), [KAnd [KOr []]], [])")
+                infos.append({"spec": full, "problem": f"{len(texts)} constraints given, {len(irs)} in force"})
+                continue
             if judge:
                 fj = Fandango(spec + f"where {judge}\n")
                 irs += [ex.export(c) for c in fj.constraints if not isinstance(c, RepetitionBoundsConstraint)]
